@@ -321,6 +321,7 @@ func runRoundtripMode() {
 	longStreamCases("C01", rng.FromEnv(111))
 	dictStringLengthCases("C01")
 	bigPlainStringCases("C01")
+	arrayRegrowFrameCase("C01")
 }
 
 // olderSchemaCases: histories written with WriterOptions.Schema = the wire schema of an OLDER
